@@ -97,6 +97,8 @@ def _const_expr(v, kind):
         return to_real(v)
     if kind == "int":
         return to_int(v)
+    if isinstance(v, (bool, int, float, _np.bool_, _np.integer, _np.floating)):
+        return z3.BoolVal(bool(v))
     return core.as_z3_bool(v)
 
 
